@@ -23,6 +23,9 @@ type clientRegionCache struct {
 	logger *slog.Logger
 
 	regions map[hrpc.RegionClient]map[hrpc.RegionInfo]struct{}
+
+	// closed is set by closeAll: from then on no client is added to the cache
+	closed bool
 }
 
 // put associates a region with client for provided addrss. It returns the client if it's already
@@ -50,6 +53,13 @@ func (rcc *clientRegionCache) put(addr string, r hrpc.RegionInfo,
 
 	// no such client yet
 	c := newClient()
+	if rcc.closed {
+		// The gohbase client has been closed: hand out a client that is
+		// closed already, so that nothing is dialed or left behind.
+		rcc.m.Unlock()
+		c.Close()
+		return c
+	}
 	rcc.regions[c] = map[hrpc.RegionInfo]struct{}{r: {}}
 	rcc.m.Unlock()
 
@@ -70,6 +80,7 @@ func (rcc *clientRegionCache) del(r hrpc.RegionInfo) {
 
 func (rcc *clientRegionCache) closeAll() {
 	rcc.m.Lock()
+	rcc.closed = true
 	for client, regions := range rcc.regions {
 		for region := range regions {
 			region.MarkUnavailable()
